@@ -40,7 +40,10 @@ def run(F, ctx):
         "Differential Dataflow fixpoint, which iterates one relation; one pass over the heads in execution order sees such heads incomplete. Rule: every function of the "
         "engine on the query path that executes one code generator per head in a loop and feeds each head's result to later heads (the chained execution loop) must be "
         "able to re-run that pass - the creation of the iterator over the execution order lies inside an enclosing loop - and the exit of the enclosing loop depends both on "
-        "a cyclicity test computed from the heads' dependency sets and on a change test that compares a head's new result with its previous one. "
+        "a cyclicity test computed from the heads' dependency sets and on a change test that compares a head's new result with its previous one; and the repetition is "
+        "per group of mutually dependent heads, the groups being produced by the dependency analysis and walked dependencies-first by an enclosing iteration. "
+        "(b) Columns are joined by name: the names the IR builder generates for atom arguments that are not variables (wildcards, constants, literals, expressions) must be unique per atom, "
+        "i.e. include the atom's index - otherwise two wildcards of one relation become a join key. "
         "Not decided: that each pass computes the right relation (values of the dataflow), termination speed, the least model of the non-recursive part."
     )
     ctx.rule("R-C01-a", "mutually recursive heads are iterated to a fixpoint by the chained execution loop", floor=1)
@@ -70,27 +73,41 @@ def run(F, ctx):
                     inner.append(c)
         if not inner:
             raise CheckError("%s: iterator over the execution order not found" % f.name)
-        repeatable = all(c.bb in loops for c in inner)
+        # the innermost driving iterator (over one group / over the order) must be created inside a loop: its pass can be re-run
+        inner_in = [c for c in inner if c.bb in loops]
+        repeatable = bool(inner_in)
+        # headers of enclosing iterations that merely move on to the next group are not part of the repeat loop
+        outer_next = set()
+        for c in inner:
+            if c not in inner_in:
+                nd = f.derive({c.dst["l"]}, through_calls=True)
+                for x in f.normal_calls():
+                    if re.search(r"Iterator>::next$", x.static_args or "") and op_local(x.args[0]) in nd and x.bb in loops:
+                        # only the `next` of this (outer) iterator, not of the inner one
+                        if not any(op_local(x.args[0]) in f.derive({ci.dst["l"]}, through_calls=True) for ci in inner_in):
+                            outer_next.add(x.bb)
         # (2) exit of the enclosing loop depends on a change test and on a cyclicity test
-        dep_fns = {n for n in F.bodies if n.startswith(ENG + "::") and (ENG + "::collect_scan_relations") in F.reach([n]) and F.fn(n).ty(0) == "bool"}
+        # cyclicity: a value computed by a dependency analysis of the heads (a bool `has a cycle`, or the grouping of the
+        # heads into mutually dependent sets, whose size is tested)
+        dep_fns = {n for n in F.bodies if n.startswith(ENG + "::") and n != f.name and "{closure" not in n and (ENG + "::collect_scan_relations") in F.reach([n]) and (CG + "::new") not in F.reach([n])}
         cyc_calls = [c for c in f.normal_calls() if c.resolved in dep_fns]
         cyc_d = set()
         for c in cyc_calls:
-            cyc_d |= f.derive({c.dst["l"]}, through_calls=False)
+            cyc_d |= f.derive({c.dst["l"]}, through_calls=True, stop_calls=[re.compile(r"CodeGenerator::"), re.compile(r"load_inputs_into_codegen")])
         gets = [c for c in f.normal_calls() if c.bb in loops and _GET.search(c.static_args or "") and (common.origins(f, op_local(c.args[0])) & stored)]
         chg_d = set()
         for c in gets:
             chg_d |= f.derive({c.dst["l"]}, through_calls=True)
         exit_on_change = exit_on_cycle = False
         if repeatable:
-            outer_entry = min(c.bb for c in inner)
+            outer_entry = min(c.bb for c in inner_in)
             for i in sorted(loops):
                 t = f.term(i)
                 if t.get("k") != "switch":
                     continue
                 succ = f.succ(i)
-                leaves = [s_ for s_ in succ if outer_entry not in f.reachable_from([s_])]
-                stays = [s_ for s_ in succ if outer_entry in f.reachable_from([s_])]
+                leaves = [s_ for s_ in succ if s_ in outer_next or outer_entry not in f.reachable_from([s_], stop=outer_next)]
+                stays = [s_ for s_ in succ if s_ not in outer_next and outer_entry in f.reachable_from([s_], stop=outer_next)]
                 if leaves and stays:
                     dl = op_local(t.get("on"))
                     srcs = common.origins(f, dl) | {dl} if dl is not None else set()
@@ -117,12 +134,114 @@ def run(F, ctx):
                                     exit_on_change = True
                                 if sj & cyc_d:
                                     exit_on_cycle = True
-        ok = repeatable and exit_on_change and exit_on_cycle
+        # (3) group-wise: the repeated pass runs over one group of mutually dependent heads at a time, the groups coming from the
+        # dependency analysis and being walked by an enclosing iteration (dependencies first). A single global repetition of the
+        # whole order is not enough: a higher group that is itself cyclic keeps rows it derived while a lower group was incomplete.
+        group_wise = False
+        grouping_calls = [c for c in cyc_calls if re.search(r"Vec<std::vec::Vec<usize>>|Vec<std::collections::\w+<usize>>", f.ty(c.dst["l"]))]
+        direct = set()
+        for c in grouping_calls:
+            direct |= f.derive({c.dst["l"]}, through_calls=False)
+        for c in inner:
+            if c in inner_in:
+                continue
+            src = op_local(c.args[0])
+            # the groups walked by the enclosing iteration are the grouping the dependency analysis returned (not a
+            # collection assembled here from a flat order)
+            if src is not None and src in direct:
+                group_wise = True
+        # the cyclicity test: a bool returned by a dependency analysis, or `size of the group >= 2`
+        size_test_ok = False
+        bool_calls = [c for c in cyc_calls if f.ty(c.dst["l"]) == "bool"]
+        if bool_calls:
+            size_test_ok = True
+        lens = [c for c in f.normal_calls() if re.search(r"::len$", c.static_args or "") and op_local(c.args[0]) in cyc_d]
+        len_d = set()
+        for c in lens:
+            len_d |= f.derive({c.dst["l"]}, through_calls=False)
+        for i_ in range(f.n):
+            for st in f.stmts(i_):
+                rv = st["r"]
+                if rv.get("k") == "bin" and rv["op"] in ("Gt", "Ge", "Lt", "Le", "Ne", "Eq"):
+                    a_, b_ = op_local(rv["a"]), op_local(rv["b"])
+                    if a_ in len_d and b_ is None and rv["b"].get("v") is not None:
+                        k_ = int(rv["b"]["v"]); sz = lambda n_: {"Gt": n_ > k_, "Ge": n_ >= k_, "Lt": n_ < k_, "Le": n_ <= k_, "Ne": n_ != k_, "Eq": n_ == k_}[rv["op"]]
+                    elif b_ in len_d and a_ is None and rv["a"].get("v") is not None:
+                        k_ = int(rv["a"]["v"]); sz = lambda n_: {"Gt": k_ > n_, "Ge": k_ >= n_, "Lt": k_ < n_, "Le": k_ <= n_, "Ne": k_ != n_, "Eq": k_ == n_}[rv["op"]]
+                    else:
+                        continue
+                    # true for every size >= 2 and false for 1 (or the exact negation, used as `single head`)
+                    v = [sz(n_) for n_ in (1, 2, 3, 7)]
+                    if v in ([False, True, True, True], [True, False, False, False]):
+                        size_test_ok = True
+        if not size_test_ok:
+            exit_on_cycle = False
+        ok = repeatable and exit_on_change and exit_on_cycle and group_wise
         ctx.site("%s: the pass over the heads is repeated until nothing changes when heads are mutually recursive" % f.name, f.where(inner[0].bb), ok=ok,
-                 repeatable=repeatable, exit_depends_on_change_test=exit_on_change, exit_depends_on_cyclicity_test=exit_on_cycle, cyclicity_fns=sorted(dep_fns)[:3])
+                 repeatable=repeatable, exit_depends_on_change_test=exit_on_change, exit_depends_on_cyclicity_test=exit_on_cycle, group_wise=group_wise, dependency_analyses=sorted(dep_fns)[:4])
         if not ok:
-            why = "executes the heads once, in execution order" if not repeatable else ("repeats the pass, but its exit does not depend on %s" % ("a change test" if not exit_on_change else "the dependency-cycle test"))
+            why = "executes the heads once, in execution order" if not repeatable else (("repeats the pass, but its exit does not depend on %s" % ("a change test" if not exit_on_change else "the dependency-cycle test")) if not (exit_on_change and exit_on_cycle) else "repeats one global pass instead of iterating group by group, dependencies first (a cyclic group above a negation keeps rows derived from an incomplete lower group)")
             ctx.violation("%s:R-C01-a:mutual-recursion-single-pass" % f.name, "%s %s: heads that depend on each other are evaluated against incomplete relations - `even(X) <- zero(X)  even(Y) <- odd(X), succ(X,Y)  odd(Y) <- even(X), succ(X,Y)` returns even = {0}" % (f.name, why), f.where(inner[0].bb))
     if n_in < 1:
         raise CheckError("no chained execution loop on the query path")
+    ctx.end_rule()
+
+    # ---- b: wildcards and literals never become join keys
+    from ..core import place_fields
+    ctx.rule("R-C01-b", "column names generated for non-variable atom arguments (wildcards, constants, literals, expressions) are unique per atom", floor=6)
+    bs = [n for n in F.bodies if n.endswith("IRBuilder::build_scan")]
+    if len(bs) != 1:
+        raise CheckError("IRBuilder::build_scan not found uniquely")
+    clos = [n for n in F.with_closures(bs[0]) if n != bs[0] and F.fn(n).enum_switches("ast::Term")]
+    if not clos:
+        raise CheckError("build_scan: closure that names the columns (match over Term) not found")
+    g = F.fn(clos[0])
+
+    def reads_atom_index(fn):
+        nm = fn.b["names"].get("atom_idx")
+        if nm is None:
+            return None
+        for i in range(fn.n):
+            for st in fn.stmts(i):
+                rv = st["r"]
+                pl = rv.get("p") if rv.get("k") in ("ref", "rawptr") else (((rv.get("o") or {}).get("c") or (rv.get("o") or {}).get("m")) if rv.get("k") == "use" else None)
+                key = list(nm.get("p") or [])
+                while key and key[-1] == "*":
+                    key.pop()          # the capture is a reference: reading the reference is reading the index
+                if pl and pl.get("l") == nm.get("l") and (pl.get("p") or [])[:len(key)] == key:
+                    yield i
+
+    if g.b["names"].get("atom_idx") is None:
+        raise CheckError("build_scan: the naming closure does not capture an atom index at all")
+    idx_blocks = set(reads_atom_index(g))
+    n_arms = 0
+    for (bb, adt, pl, mm, other) in g.enum_switches("ast::Term"):
+        targets = list(mm.values()) + ([other] if other is not None else [])
+        for v, tgt in sorted(mm.items()):
+            region = g.arm_region(targets, tgt, stop={bb})
+            fmts = [c for c in g.normal_calls() if c.bb in region and re.search(r"fmt::format$", c.static or "")]
+            nested = []
+            for i in region:
+                for st in g.stmts(i):
+                    rv = st["r"]
+                    if rv.get("k") == "agg" and rv.get("ak") == "closure" and rv["def"] in F.bodies:
+                        nested.append(rv["def"])
+            ok = True
+            generated = bool(fmts)
+            if fmts and not (idx_blocks & region):
+                ok = False
+            for nd in nested:
+                ng = F.fn(nd)
+                if any(re.search(r"fmt::format$", c.static or "") for c in ng.normal_calls()):
+                    generated = True
+                    if not list(reads_atom_index(ng) or []):
+                        ok = False
+            if not generated:
+                continue
+            n_arms += 1
+            ctx.site("Term::%s: generated column name includes the atom index" % v, g.where(tgt), ok=ok)
+            if not ok:
+                ctx.violation("%s:R-C01-b:%s-name-shared-between-atoms" % (bs[0], v), "build_scan names the column of a %s argument without the atom's index: two atoms of one relation get the same column name, and columns are joined by name - `q(X,Y) <- e(X,_), e(Y,_)` joins the two wildcards and returns 3 rows instead of 9" % v, g.where(tgt))
+    if n_arms < 6:
+        raise CheckError("build_scan: only %d generated-name arms found" % n_arms)
     ctx.end_rule()
